@@ -7,7 +7,7 @@ From TLV Require Import Base.Shape Base.PyList Base.Tensor Base.BigSum Base.Ops 
      Proofs.SvdDecompProofs Proofs.SvdDecompProofsR Proofs.SvdDecompPyth Proofs.SvdDecompError Proofs.SvdDecompTTM
      Proofs.SvdDecompTuckerErr Proofs.SvdDecompTTMErr Proofs.SvdDecompErrorR Proofs.SvdDecompHosvdBound
      Proofs.SvdDecompPartial Proofs.SvdDecompRankCond Proofs.SvdDecompTTUpper Proofs.SvdDecompTTRank Proofs.SvdDecompTTMRank
-     Proofs.SvdDecompEckartYoung Proofs.SvdDecompTails.
+     Proofs.SvdDecompEckartYoung Proofs.SvdDecompTails Proofs.SvdDecompValidate Proofs.SvdDecompRanks.
 Import ListNotations.
 
 Section TTMBridge.
@@ -69,6 +69,54 @@ Proof.
     * change (permute 0 (interleave_idx ni) (shape X)) with (shape Xt). rewrite HsXt.
       apply inb_inter; auto. lia.
   + unfold ttm_entry. rewrite (chain4_reshape Op svd) by (auto; lia). reflexivity.
+Qed.
+
+(* the bonds of the returned 4-D cores (last dimension of every core but the last) *)
+Fixpoint ttm_right_bonds (cores : list (tensor F)) : list nat :=
+  match cores with
+  | [] => []
+  | G :: cs => match cs with [] => [] | _ :: _ => nth 3 (shape G) 0 :: ttm_right_bonds cs end
+  end.
+
+Lemma ttm_right_bonds_split : forall fs ins outs, length fs = length ins -> length fs = length outs ->
+  ttm_right_bonds (ttm_split ins outs fs) = right_bonds fs.
+Proof.
+  unfold ttm_split. induction fs as [|f fs IH]; intros [|a ins] [|b outs] H1 H2; simpl in H1, H2; try lia; [reflexivity|].
+  cbn [zip3]. destruct fs as [|f2 fs2].
+  - destruct ins, outs; reflexivity.
+  - destruct ins as [|a2 ins2]; [simpl in H1; lia|]. destruct outs as [|b2 outs2]; [simpl in H2; lia|].
+    cbn [zip3 ttm_right_bonds right_bonds]. cbn [shape reshape nth]. f_equal.
+    apply (IH (a2 :: ins2) (b2 :: outs2)); simpl in *; lia.
+Qed.
+
+Lemma ndim_ttm_T X : ndim X = 2 * (ndim X / 2) -> ndim (ttm_T Op X) = ndim X / 2.
+Proof.
+  intros Hord. unfold ttm_T, ndim, reshape. cbv zeta. cbn [shape].
+  set (ni := length (shape X) / 2) in *.
+  assert (Hlz : forall (A B : list nat), length A = length B -> length (zip2 Nat.mul A B) = length A).
+  { induction A as [|a A IH]; intros [|b B] Hl; simpl in *; try lia. rewrite IH; lia. }
+  unfold ndim in Hord. fold ni in Hord.
+  rewrite Hlz; rewrite firstn_length; [lia|rewrite skipn_length; lia].
+Qed.
+
+(* the advertised TT-matrix ranks: with more than one mode pair, tensor_train_matrix returns EXACTLY the closed-form bonds of TT-SVD
+   on the merged mode sizes in_k * out_k (any carrier, any oracle) - in particular never more than requested *)
+Theorem tensor_train_matrix_realised_rank X rank cores :
+  ndim X / 2 <> 1 -> tensor_train_matrix Op svd X rank = Ok cores ->
+  match validate_tt_rank (ndim X / 2) rank with
+  | Ok rk => 1 :: ttm_right_bonds cores ++ [1] =
+             realised_tt_rank (zip2 Nat.mul (firstn (ndim X / 2) (shape X)) (skipn (ndim X / 2) (shape X))) rk
+  | Err => False
+  end.
+Proof.
+  intros E Hrun. destruct (ttm_err2_tt_err2 X rank cores E Hrun) as (fs & Htt & Hcores & Hlen & Hord & _).
+  pose proof (tensor_train_realised_rank Op svd (ttm_T Op X) rank fs Htt) as H.
+  rewrite (ndim_ttm_T X Hord) in H.
+  destruct (validate_tt_rank (ndim X / 2) rank) as [rk|]; [|exact H].
+  rewrite Hcores. rewrite ttm_right_bonds_split.
+  - exact H.
+  - rewrite firstn_length. unfold ndim in *. lia.
+  - rewrite skipn_length. unfold ndim in *. lia.
 Qed.
 
 End TTMBridge.
